@@ -63,7 +63,17 @@ pub fn matrix() -> Vec<u8> {
 fn render(rows: &[Row], rng: &mut Rng) -> String {
     let mut s = String::new();
     for r in rows {
-        let (l, rt) = if r.left < 0 { (-1i16, -1i16) } else { (r.left, r.left) };
+        // a negative left id (ANY negative value, not only the customary -1) declares the row non-indexed; such a row may carry
+        // a negative or an ordinary right id
+        let (l, rt) = if r.left < 0 {
+            (r.left, match rng.below(3) {
+                0 => -1i16,
+                1 => r.left,
+                _ => rng.range(0, 9) as i16,
+            })
+        } else {
+            (r.left, r.left)
+        };
         let pos = *rng.pick(&POS);
         s.push_str(&format!("{},{},{},{},{},{},*,*,*,A,*,*,*,*\n", csv_field(&r.surface), l, rt, rng.range(-500, 9000), csv_field(&r.surface), pos));
     }
@@ -165,7 +175,7 @@ fn gen_rows(rng: &mut Rng, shared: &[Row], shape: u64) -> Vec<Row> {
         } else {
             gen_surface(rng, &rows)
         };
-        let left = if rng.chance(1, 6) { -1 } else { rng.range(0, 9) as i16 };
+        let left = if rng.chance(1, 5) { *rng.pick(&[-1i16, -1, -1, -2, -3, -7, -100, -32768]) } else { rng.range(0, 9) as i16 };
         rows.push(Row { surface, left });
     }
     // a lexicon without a single indexed row makes the yada builder assert (`labels.len() > 0`): that panic belongs to the
@@ -306,6 +316,182 @@ fn lattice_obs(dict: &JapaneseDictionary, all: &[Vec<Row>], text: &str, verbose:
     }
     let bow: Vec<u8> = (0..tb.len()).map(|i| if inp.can_bow(i) { 1 } else { 0 }).collect();
     Ok((format!("(\"{}\"%string, \"{}\"%string, {})", hex(tb), hex(&bow), clist(obs)), bad))
+}
+
+// ---------------------------------------------------------------------------------------------------------------------
+// hand-made double arrays fed straight to the reader (Trie::new_owned + common_prefix_iterator): the reader takes any u32
+// array, and a compiled lexicon of test size never contains the WIDE form of a unit's offset (bit 9 set, offset stored
+// >> 8; yada uses it for relative offsets >= 2^21).  The little builder below lays a key set out in a few 256-unit blocks
+// and writes an offset in the wide form whenever it is a multiple of 256.
+struct RawNode {
+    children: std::collections::BTreeMap<u8, RawNode>,
+    value: Option<u32>,
+}
+
+fn raw_place(rng: &mut Rng, node: &RawNode, pos: usize, units: &mut Vec<u32>, used: &mut Vec<bool>, bases: &mut Vec<bool>, prefer_wide: bool, nwide: &mut usize) -> bool {
+    let len = units.len();
+    let nblocks = len / 256;
+    let mut cands: Vec<usize> = vec![];
+    if prefer_wide {
+        let mut ks: Vec<usize> = (1..nblocks).collect();
+        for i in (1..ks.len()).rev() {
+            ks.swap(i, rng.below(i as u64 + 1) as usize);
+        }
+        for k in ks {
+            cands.push(pos ^ (k << 8));
+        }
+    }
+    for _ in 0..200 {
+        cands.push(rng.below(len as u64) as usize);
+    }
+    for base in cands {
+        // two nodes must not share a base: their children would be reachable from both
+        if base >= len || bases[base] {
+            continue;
+        }
+        let mut ok = true;
+        if node.value.is_some() && used[base] {
+            ok = false;
+        }
+        for c in node.children.keys() {
+            if used[base ^ (*c as usize)] {
+                ok = false;
+            }
+        }
+        if !ok {
+            continue;
+        }
+        bases[base] = true;
+        let o = pos ^ base;
+        let enc = if o != 0 && o & 0xff == 0 && prefer_wide {
+            *nwide += 1;
+            (((o >> 8) as u32) << 10) | (1 << 9)
+        } else {
+            (o as u32) << 10
+        };
+        units[pos] |= enc | if node.value.is_some() { 1 << 8 } else { 0 };
+        if let Some(v) = node.value {
+            used[base] = true;
+            units[base] = v | (1 << 31);
+        }
+        for c in node.children.keys() {
+            let p = base ^ (*c as usize);
+            used[p] = true;
+            units[p] = *c as u32;
+        }
+        for (c, ch) in node.children.iter() {
+            if !raw_place(rng, ch, base ^ (*c as usize), units, used, bases, prefer_wide, nwide) {
+                return false;
+            }
+        }
+        return true;
+    }
+    false
+}
+
+fn raw_build(rng: &mut Rng, keys: &[(Vec<u8>, u32)], nblocks: usize, prefer_wide: bool) -> Option<(Vec<u32>, usize)> {
+    let mut root = RawNode { children: Default::default(), value: None };
+    for (k, v) in keys {
+        let mut n = &mut root;
+        for b in k {
+            n = n.children.entry(*b).or_insert_with(|| RawNode { children: Default::default(), value: None });
+        }
+        n.value = Some(*v);
+    }
+    let mut units = vec![0u32; 256 * nblocks];
+    let mut used = vec![false; 256 * nblocks];
+    used[0] = true;
+    let mut bases = vec![false; 256 * nblocks];
+    let mut nwide = 0;
+    if raw_place(rng, &root, 0, &mut units, &mut used, &mut bases, prefer_wide, &mut nwide) {
+        Some((units, nwide))
+    } else {
+        None
+    }
+}
+
+fn run_raw_case(sink: &mut Sink, units: &[u32], keys: &[(Vec<u8>, u32)], texts: &[Vec<u8>], nwide: usize, verbose: bool) {
+    use sudachi::dic::lexicon::trie::Trie;
+    let d = json!({"kind": "c04-raw", "units": units, "keys": keys.iter().map(|(k, v)| json!([hex(k), v])).collect::<Vec<_>>(),
+                   "texts": texts.iter().map(|t| hex(t)).collect::<Vec<_>>(), "wide_offsets": nwide});
+    let trie = Trie::new_owned(units.to_vec());
+    let mut bad: Option<String> = None;
+    let mut qterms = vec![];
+    let mut hits = 0;
+    for t in texts {
+        let mut outs = vec![];
+        for off in 0..=t.len() {
+            let r = catch(|| trie.common_prefix_iterator(t, off).map(|e| (e.value, e.end)).collect::<Vec<_>>());
+            let mut want: Vec<(u32, usize)> = keys.iter().filter(|(k, _)| t[off..].starts_with(k)).map(|(k, v)| (*v, off + k.len())).collect();
+            want.sort_by_key(|x| x.1);
+            match r {
+                Ok(v) => {
+                    if verbose {
+                        println!("impl  raw text={} off={} -> {:?}; key set gives {:?}", hex(t), off, v, want);
+                    }
+                    if v != want && bad.is_none() {
+                        bad = Some(format!("hand-made double array ({} wide offsets), text {} offset {}: common_prefix_iterator gives {:?}, the key set gives {:?} (value, end)", nwide, hex(t), off, v, want));
+                    }
+                    hits += v.len();
+                    outs.push(clist(v.iter().map(|(w, e)| cpair(&cn(*w), &cnu(*e)))));
+                }
+                Err(p) => {
+                    if bad.is_none() {
+                        bad = Some(format!("hand-made double array, text {} offset {}: traversal panicked: {}", hex(t), off, p));
+                    }
+                    outs.push("[]".to_string());
+                }
+            }
+        }
+        qterms.push(format!("(\"{}\"%string, {})", hex(t), clist(outs)));
+    }
+    let mut bytes = vec![];
+    for u in units {
+        bytes.extend_from_slice(&u.to_le_bytes());
+    }
+    let fuel = keys.iter().map(|k| k.0.len()).max().unwrap_or(0) + 1;
+    let kterms = clist(keys.iter().map(|(k, v)| format!("(\"{}\"%string, {})", hex(k), cn(*v))));
+    let term = format!("check_case_c04_raw \"{}\"%string {}%nat {} {}", hexz(&bytes), fuel, kterms, clist(qterms));
+    sink.tag("raw_array");
+    sink.tag(if nwide > 0 { "raw_array_with_wide_offsets" } else { "raw_array_narrow_only" });
+    let id = sink.case(term, d, hits >= 2 && nwide > 0);
+    if let Some(b) = bad {
+        if verbose {
+            println!("FAIL: {}", b);
+        }
+        sink.fail(id, &b, "");
+    }
+}
+
+fn gen_raw_case(rng: &mut Rng) -> Option<(Vec<u32>, Vec<(Vec<u8>, u32)>, Vec<Vec<u8>>, usize)> {
+    let alpha: Vec<&[u8]> = vec![b"a", b"b", b"c", "あ".as_bytes(), "ア".as_bytes(), "𠮟".as_bytes()];
+    let nk = 2 + rng.below(7) as usize;
+    let mut keys: Vec<(Vec<u8>, u32)> = vec![];
+    for _ in 0..nk {
+        let mut k: Vec<u8> = if !keys.is_empty() && rng.chance(1, 2) { rng.pick(&keys).0.clone() } else { vec![] };
+        for _ in 0..1 + rng.below(2) {
+            k.extend_from_slice(*rng.pick(&alpha[..]));
+        }
+        if keys.iter().all(|x| x.0 != k) {
+            keys.push((k, rng.below(1 << 20) as u32));
+        }
+    }
+    let nblocks = 2 + rng.below(3) as usize;
+    let prefer_wide = !rng.chance(1, 5);
+    let (units, nwide) = raw_build(rng, &keys, nblocks, prefer_wide)?;
+    let mut texts = vec![];
+    for _ in 0..3 {
+        let mut t = vec![];
+        for _ in 0..1 + rng.below(3) {
+            if rng.chance(3, 4) {
+                t.extend_from_slice(&rng.pick(&keys).0);
+            } else {
+                t.extend_from_slice(*rng.pick(&alpha[..]));
+            }
+        }
+        texts.push(t);
+    }
+    Some((units, keys, texts, nwide))
 }
 
 fn gen_text(rng: &mut Rng, all: &[Vec<Row>]) -> String {
@@ -623,10 +809,21 @@ fn gen_case(rng: &mut Rng, layers: usize, shape: u64) -> (Vec<String>, Vec<Strin
 pub fn run(args: &Args) {
     let mut sink = Sink::new("C04", &args.out, &["Model.LexSet", "Model.IndexBuild", "Model.DictCands"], args.seed, &args.tier);
     sink.shard_size = 12;
-    sink.rule("stacks of 1..15 dictionaries compiled by DictBuilder from generated CSVs (keys over a 16-letter alphabet of 1/2/3/4-byte characters incl. '#' and the apostrophe; keys extended/cut from other keys so that keys are prefixes of others; homographs up to 127; keys shared between layers; left_id=-1 rows) x texts concatenated from keys and letters, LexiconSet::lookup at EVERY byte offset (incl. inside characters) x exact-surface MorphemeList::lookup of keys / near-keys; each case also certifies every trie with the verified enumerator; non-trivial = at least 2 entries returned and (a key is a proper prefix of another, or homographs, or more than one layer); distinct by generated Coq term");
+    sink.rule("stacks of 1..15 dictionaries compiled by DictBuilder from generated CSVs (keys over a 16-letter alphabet of 1/2/3/4-byte characters incl. '#' and the apostrophe; keys extended/cut from other keys so that keys are prefixes of others; homographs up to 127; keys shared between layers; rows with a negative left id (-1, -2, -3, -7, -100, -32768; right id negative or not)) + hand-made double arrays (2-4 blocks, offsets written in the wide form wherever possible) fed directly to Trie::new_owned / common_prefix_iterator and compared with their key set and with the model x texts concatenated from keys and letters, LexiconSet::lookup at EVERY byte offset (incl. inside characters) x exact-surface MorphemeList::lookup of keys / near-keys; each case also certifies every trie with the verified enumerator; non-trivial = at least 2 entries returned and (a key is a proper prefix of another, or homographs, or more than one layer); distinct by generated Coq term");
     if let Some(p) = &args.replay {
         let v: Value = serde_json::from_str(&std::fs::read_to_string(p).unwrap()).unwrap();
         let case = &v["case"];
+        if case["kind"] == "c04-raw" {
+            let unhex = |h: &str| -> Vec<u8> { (0..h.len() / 2).map(|i| u8::from_str_radix(&h[2 * i..2 * i + 2], 16).unwrap()).collect() };
+            let units: Vec<u32> = case["units"].as_array().unwrap().iter().map(|x| x.as_u64().unwrap() as u32).collect();
+            let keys: Vec<(Vec<u8>, u32)> = case["keys"].as_array().unwrap().iter().map(|k| (unhex(k[0].as_str().unwrap()), k[1].as_u64().unwrap() as u32)).collect();
+            let texts: Vec<Vec<u8>> = case["texts"].as_array().unwrap().iter().map(|t| unhex(t.as_str().unwrap())).collect();
+            println!("hand-made double array of {} units, non-zero units (index, value): {:?}", units.len(), units.iter().enumerate().filter(|(_, u)| **u != 0).map(|(i, u)| (i, format!("{:#x}", u))).collect::<Vec<_>>());
+            println!("keys (hex, value): {:?}", keys.iter().map(|(k, v)| (hex(k), *v)).collect::<Vec<_>>());
+            run_raw_case(&mut sink, &units, &keys, &texts, case["wide_offsets"].as_u64().unwrap_or(0) as usize, true);
+            sink.finish();
+            return;
+        }
         let gs = |k: &str| -> Vec<String> { case[k].as_array().map(|a| a.iter().map(|x| x.as_str().unwrap().to_string()).collect()).unwrap_or_default() };
         let (csvs, texts, exacts) = (gs("csvs"), gs("texts"), gs("exacts"));
         for (i, c) in csvs.iter().enumerate() {
@@ -678,6 +875,12 @@ pub fn run(args: &Args) {
     for n in [15usize, 16] {
         let (csvs, texts, exacts) = gen_case(&mut rng, n, 0);
         run_case(&mut sink, &csvs, &texts, &exacts, true, false);
+    }
+    // hand-made double arrays with wide offsets straight into the reader
+    for _ in 0..args.n(150, 3000) {
+        if let Some((units, keys, texts, nwide)) = gen_raw_case(&mut rng) {
+            run_raw_case(&mut sink, &units, &keys, &texts, nwide, false);
+        }
     }
     let n = args.n(400, 6000);
     for _ in 0..n {
